@@ -777,6 +777,11 @@ Section WithFacts.
         && Nat.ltb (count_members (snd c)) max_attempts
     end.
 
+  (* does the same field at two destinations get the same option string?  Not when only the nested spelling is generated and it
+     keeps the root destination. *)
+  Definition same_field_clashes (c : cfg) : bool :=
+    negb (match gm c, nm c with GNested, NDefault => true | _, _ => false end).
+
   Definition api_ok (c : pcfg) (f : forest) : bool :=
     match p_api c with AParser => true | AParse => Nat.eqb (List.length f) 1 end.
 
@@ -792,11 +797,13 @@ Section WithFacts.
                   end
     | MMerge =>
         if uniform_scope f then
-          match f with
-          | [_] => Ok (parse_plain f)                                     (* nothing is merged *)
-          | (_, c0, _) :: _ => parse_uniform c0 f
-          | [] => Ok []
-          end
+          if same_field_clashes (p_cfg c) then
+            match f with
+            | [_] => Ok (parse_plain f)                                   (* nothing is merged *)
+            | (_, c0, _) :: _ => parse_uniform c0 f
+            | [] => Ok []
+            end
+          else Ok (parse_plain f)    (* option strings carry the destination: no clash, nothing is merged *)
         else parse_merge opts f
     end.
 End WithFacts.
